@@ -619,3 +619,13 @@ from srccall import with_src  # noqa: E402
 _VALIDATORS = ['metadata_version', 'name', 'version', 'summary', 'dynamic', 'provides_extra', 'requires_python', 'requires_dist', 'license_expression', 'license_files']
 PROP = with_src(C17(), share=10, functions=["_Validator._process_" + v for v in _VALIDATORS], module="PkgProofs.Props.Src.Metadata",
                 theorems=["Src._Validator._process_metadata_version_translated", "Src._Validator._process_metadata_version_eq_model", "Src._Validator._process_name_translated", "Src._Validator._process_name_eq_model", "Src._Validator._process_version_translated", "Src._Validator._process_version_eq_model", "Src._Validator._process_summary_translated", "Src._Validator._process_summary_eq_model", "Src._Validator._process_dynamic_translated", "Src._Validator._process_dynamic_eq_model", "Src._Validator._process_provides_extra_translated", "Src._Validator._process_provides_extra_eq_model", "Src._Validator._process_requires_python_translated", "Src._Validator._process_requires_python_eq_model", "Src._Validator._process_requires_dist_translated", "Src._Validator._process_requires_dist_eq_model", "Src._Validator._process_license_expression_translated", "Src._Validator._process_license_expression_eq_model", "Src._Validator._process_license_files_translated", "Src._Validator._process_license_files_eq_model"])
+# x6: `_process_description_content_type` — the `EmailMessage` answers through the oracle (`PyMd.extOf6`, as `Meta.Oracle.ctype`)
+PROP = with_src(PROP, share=10, functions=["_Validator._process_description_content_type"], module="PkgProofs.Props.Src.MetaCtype",
+                theorems=["Src._Validator._process_description_content_type_translated",
+                          "Src._Validator._process_description_content_type_eq_model"])
+# x6: `_Validator.__get__` (the per-instance cache and the `_raw` pop): proved equal to `Meta.descGet` up to look-ups
+# (`Src.InstRel`), for raw values of the type the converter expects (`Src.WellTyped`) — the model's `tyErr` cases do not
+# mirror the source on ill-typed raw data
+PROP = with_src(PROP, share=10, functions=["_Validator.__get__"], module="PkgProofs.Props.Src.MetaGet",
+                theorems=["Src._Validator.__get___translated", "Src._Validator._process__dyn_eq", "Src.procSrc_eq_model",
+                          "Src._Validator.__get___eq_model", "Src._Validator.__get___no_converter"])
